@@ -397,11 +397,17 @@ fn group_layer(ctx: &mut Ctx) {
         }
         let mut p = Prng::new(sub, "g");
         // P: multiple of G or of a random curve point
-        let kp = if i % 25 == 7 && (i / 25) % 2 == 0 { BigUint::one() } else if i % 9 == 0 { BigUint::from(1 + p.below(5)) } else { rand_scalar(&mut p, &c.n) };
+        let kp = if (i % 25 == 7 && (i / 25) % 2 == 0) || i % 25 == 13 { BigUint::one() } else if i % 9 == 0 { BigUint::from(1 + p.below(5)) } else { rand_scalar(&mut p, &c.n) };
         let base: Pt = if i % 25 == 7 {
             // the curve point with x = 0 (32 zero bytes as a coordinate)
             ctx.class("base_point_with_zero_x");
             Some((BigUint::zero(), r2::sqrt_p(&c.b).unwrap()))
+        } else if i % 25 == 13 {
+            // curve points with a tiny or near-p x: at x = 1 the tangent slope 3x^2 + a is zero (a = -3)
+            let cands: Vec<BigUint> = vec![BigUint::one(), BigUint::from(2u32), BigUint::from(3u32), BigUint::from(4u32), &c.p - 2u32, &c.p - 3u32, &c.p - 4u32, &c.p - 5u32];
+            let on: Vec<(BigUint, BigUint)> = cands.iter().filter_map(r2::point_from_x).collect();
+            ctx.class("base_point_with_special_x");
+            Some(on[((i / 25) as usize) % on.len()].clone())
         } else if i % 3 == 0 {
             // random curve point from x
             let mut x = rand_scalar(&mut p, &c.p);
@@ -648,7 +654,7 @@ pub fn run(ctx: &mut Ctx) {
     for (n, ok) in r2::selftest() {
         ctx.selftest(&n, ok);
     }
-    ctx.require(&["fp_add", "fp_sub", "fp_mul", "fp_sqr", "fp_double", "fp_triple", "fp_neg", "fp_div2", "fp_inv", "fp_pow", "fp_sqrt_residue", "fp_sqrt_nonresidue", "fp_to_mont", "fp_from_mont", "fn_add", "fn_sub", "fn_mul", "fn_pow", "fn_inv", "u256_primitives", "u512_primitives", "fp_mont_mul_carry_out_of_2^512", "fp_mul_product=0", "fp_mul_product=1", "fp_mul_product=m-1", "fn_mul_product_shape", "fp_mul_product_shape", "table_entry", "single_byte_scalar", "P_ne_Q", "P_eq_Q_same_repr", "P_eq_Q_diff_Z", "P_eq_negQ_same_Z", "P_eq_negQ_diff_Z", "infinity_canonical", "infinity_arbitrary_XY", "k=0", "k=n", "k=n+1", "k=n+small", "k=2^256-1", "k=random", "k=sparse_limbs", "k=runs_of_ones", "k=n+j_sweep", "k=n-j_sweep", "consecutive_negated_base", "consecutive_same_point_other_Z", "crafted_stored_Z_limbs", "base_point_with_zero_x", "base_is_(negated)_generator_or_table_point", "to_affine_point", "predicates", "predicates_offcurve", "from_byte"]);
+    ctx.require(&["fp_add", "fp_sub", "fp_mul", "fp_sqr", "fp_double", "fp_triple", "fp_neg", "fp_div2", "fp_inv", "fp_pow", "fp_sqrt_residue", "fp_sqrt_nonresidue", "fp_to_mont", "fp_from_mont", "fn_add", "fn_sub", "fn_mul", "fn_pow", "fn_inv", "u256_primitives", "u512_primitives", "fp_mont_mul_carry_out_of_2^512", "fp_mul_product=0", "fp_mul_product=1", "fp_mul_product=m-1", "fn_mul_product_shape", "fp_mul_product_shape", "table_entry", "single_byte_scalar", "P_ne_Q", "P_eq_Q_same_repr", "P_eq_Q_diff_Z", "P_eq_negQ_same_Z", "P_eq_negQ_diff_Z", "infinity_canonical", "infinity_arbitrary_XY", "k=0", "k=n", "k=n+1", "k=n+small", "k=2^256-1", "k=random", "k=sparse_limbs", "k=runs_of_ones", "k=n+j_sweep", "k=n-j_sweep", "consecutive_negated_base", "consecutive_same_point_other_Z", "crafted_stored_Z_limbs", "base_point_with_zero_x", "base_point_with_special_x", "base_is_(negated)_generator_or_table_point", "to_affine_point", "predicates", "predicates_offcurve", "from_byte"]);
     field_layer(ctx);
     table_layer(ctx);
     group_layer(ctx);
